@@ -32,6 +32,7 @@ class SendEvent:
         self.kind = kind      # 'START' | 'BODY'
         self.more = more      # bool (BODY only)
         self.body = body      # None (no bytes) or the expression sent
+        self.fields: Dict[object, ast.AST] = {}
 
     @property
     def label(self):
@@ -45,42 +46,255 @@ def _is_empty_bytes(p, f, e) -> bool:
     return isinstance(v, (bytes, str)) and len(v) == 0
 
 
-def _send_events(p, f: Func, send_name: str) -> Dict[int, SendEvent]:
-    """id(call) -> SendEvent for every `send(<event>)` call of f."""
+_EVENT_KEYS = ('type', 'more_body', 'body')
+_DICT_MUTATORS = ('update', 'pop', 'popitem', 'clear', 'setdefault', '__setitem__', '__delitem__', '__ior__')
+_ABSENT = object()
+
+
+def _classify_event(p, f: Func, call, d: Dict[object, ast.AST], m, ff) -> SendEvent:
+    """SendEvent of a send call whose event folds to the fields `d` (key -> value expression, evaluated in
+    module m / function ff)."""
+    if 'type' not in d:
+        raise UnknownIdiom('%s: event without a constant "type" key: %s' % (f.qual, short(call.args[0])))
+    t = p.fold(m, d['type'], None, ff)
+    if t == START_T:
+        ev = SendEvent(call, 'START', False, None)
+    elif t == BODY_T:
+        more = False
+        if 'more_body' in d:
+            v = d['more_body']
+            if isinstance(v, ast.Constant) and isinstance(v.value, bool):
+                more = v.value
+            else:
+                raise UnknownIdiom('%s: more_body is not a literal: %s' % (f.qual, short(v)))
+        body = d.get('body')
+        if body is not None and _is_empty_bytes(p, f, body):
+            body = None
+        ev = SendEvent(call, 'BODY', more, body)
+    else:
+        raise UnknownIdiom('%s: send of event type %r in the HTTP callable' % (f.qual, t))
+    ev.fields = d
+    return ev
+
+
+class NamedEvent:
+    """An event object handed to `send` by name: a local bound to a dict display in the same function, or a
+    module-level constant."""
+
+    def __init__(self, name, kind):
+        self.name = name
+        self.kind = kind                    # 'local' | 'const'
+        self.sends: List[ast.Call] = []     # send(<name>) calls
+        self.bind_nodes: Set[int] = set()   # local: CFG nodes that (re)create the object
+        self.store_nodes: Set[int] = set()  # local: CFG nodes `<name>[<const>] = v`
+        self.mutations: List[Tuple[Func, ast.AST]] = []   # const: (function, statement/call) that modify the object
+
+
+def _local_event_sites(f: Func, name: str):
+    """Every occurrence of the local `name` in f, classified; anything but a binding to a dict display, a
+    constant-key field store / read, or the argument of a call is an idiom this rule does not read."""
+    parent = enclosing_map(f.node)
+    binds, stores, args = [], [], []
+    for x in ast.walk(f.node):
+        if not is_name(x, name):
+            continue
+        par = parent.get(id(x))
+        gp = parent.get(id(par)) if par is not None else None
+        if isinstance(x.ctx, ast.Store):
+            if isinstance(par, ast.Assign) and len(par.targets) == 1 and par.targets[0] is x and isinstance(par.value, ast.Dict):
+                binds.append(par)
+            elif isinstance(par, ast.AnnAssign) and par.target is x and (par.value is None or isinstance(par.value, ast.Dict)):
+                if par.value is not None:
+                    binds.append(par)
+            else:
+                raise UnknownIdiom('%s: event local %s is bound by %s' % (f.qual, name, short(par)))
+        elif isinstance(par, ast.Subscript) and par.value is x:
+            key = par.slice
+            if not (isinstance(key, ast.Constant) and isinstance(key.value, str)):
+                raise UnknownIdiom('%s: event field with a computed key: %s' % (f.qual, short(par)))
+            if isinstance(par.ctx, ast.Load):
+                continue
+            if isinstance(par.ctx, ast.Store) and isinstance(gp, ast.Assign) and len(gp.targets) == 1 and gp.targets[0] is par:
+                stores.append(gp)
+            else:
+                raise UnknownIdiom('%s: event field modified by %s' % (f.qual, short(gp)))
+        elif isinstance(par, ast.Call) and x in par.args:
+            args.append(par)
+        else:
+            raise UnknownIdiom('%s: event local %s used in %s' % (f.qual, name, short(par)))
+    return binds, stores, args
+
+
+def _local_events(p, f: Func, cfg, names: Set[str], send_name: str, calls: List[ast.Call]):
+    """Fold the event dicts passed to send by local name: reaching field definitions (dict display at the
+    binding, then constant-key subscript stores as field updates)."""
+    node_of: Dict[int, List[int]] = {}
+    for n in cfg.live_nodes():
+        if n.kind == 'stmt' and n.ast is not None:
+            node_of.setdefault(id(n.ast), []).append(n.id)
+        if n.kind not in ('entry', 'exit', 'xexit', 'join'):
+            for x in n.walk():
+                if isinstance(x, ast.Call):
+                    node_of.setdefault(id(x), []).append(n.id)
+    gen: Dict[int, Tuple[str, Dict[object, object]]] = {}       # binding node -> (name, key -> expr | _ABSENT)
+    upd: Dict[int, Tuple[str, str, ast.AST]] = {}                # store node -> (name, key, expr)
+    named: Dict[str, NamedEvent] = {}
+    for name in sorted(names):
+        ne = named[name] = NamedEvent(name, 'local')
+        binds, stores, args = _local_event_sites(f, name)
+        for c in args:
+            if not is_name(c.func, send_name):
+                raise UnknownIdiom('%s: event local %s is also passed to %s' % (f.qual, name, short(c.func)))
+        if not binds:
+            raise UnknownIdiom('%s: event passed to send is not a dict literal / module constant / local bound to a dict display: %s'
+                               % (f.qual, name))
+        for b in binds:
+            d = dict_literal(p, f, b.value)
+            if d is None or not all(isinstance(k, str) for k in d):
+                raise UnknownIdiom('%s: event display with computed keys: %s' % (f.qual, short(b)))
+            fields: Dict[object, object] = dict(d)
+            for k in _EVENT_KEYS:
+                fields.setdefault(k, _ABSENT)
+            for nid in node_of.get(id(b), []):
+                gen[nid] = (name, fields)
+                ne.bind_nodes.add(nid)
+        for s in stores:
+            for nid in node_of.get(id(s), []):
+                upd[nid] = (name, s.targets[0].slice.value, s.value)
+                ne.store_nodes.add(nid)
+    vals: Dict[Tuple[str, object, int], object] = {}
+
+    def transfer(node, facts, label):
+        if label == 'exc':
+            return facts        # the assignment did not complete
+        g = gen.get(node.id)
+        if g is not None:
+            name, fields = g
+            out = {x for x in facts if x[0] != name}
+            for k, v in fields.items():
+                vals[(name, k, node.id)] = v
+                out.add((name, k, node.id))
+            return frozenset(out)
+        u = upd.get(node.id)
+        if u is not None:
+            name, k, v = u
+            vals[(name, k, node.id)] = v
+            return frozenset({x for x in facts if not (x[0] == name and x[1] == k)} | {(name, k, node.id)})
+        return facts
+
+    reach = flow.forward(cfg, transfer, init=frozenset(), must=False)
     out = {}
+    for c in calls:
+        name = c.args[0].id
+        named[name].sends.append(c)
+        nids = node_of.get(id(c), [])
+        if not nids:
+            continue            # dead code
+        alts: Dict[object, List[object]] = {}
+        for nid in nids:
+            here = [x for x in reach[nid] if x[0] == name]
+            if not here:
+                raise UnknownIdiom('%s: %s is passed to send before it is bound' % (f.qual, name))
+            for x in here:
+                v = vals[x]
+                if not any(v is w for w in alts.setdefault(x[1], [])):
+                    alts[x[1]].append(v)
+        d: Dict[object, ast.AST] = {}
+        for k, vs in alts.items():
+            if k == 'body':
+                live = [v for v in vs if v is not _ABSENT and not _is_empty_bytes(p, f, v)]
+                if not live:
+                    continue
+                if len(live) != len(vs) or len(live) > 1:
+                    raise UnknownIdiom('%s: the body field of %s at %s has several reaching values' % (f.qual, name, short(c)))
+                d[k] = live[0]
+                continue
+            canon = set()
+            for v in vs:
+                if v is _ABSENT:
+                    canon.add(('absent',))
+                else:
+                    fv = p.fold(f.module, v, None, f)
+                    canon.add(('expr', ast.dump(v)) if fv is UNKNOWN else ('value', repr(fv)))
+            if len(canon) > 1:
+                raise UnknownIdiom('%s: the %r field of %s at %s has several reaching values' % (f.qual, k, name, short(c)))
+            if vs[0] is not _ABSENT:
+                d[k] = vs[0]
+        out[id(c)] = _classify_event(p, f, c, d, f.module, f)
+    return out, named
+
+
+def _const_event(p, f: Func, q: str, name: str, m) -> NamedEvent:
+    """Module-level constant event: the places (in any function of its module) that modify the object."""
+    ne = NamedEvent(q, 'const')
+    for stmt in m.tree.body:
+        if isinstance(stmt, (ast.FunctionDef, ast.AsyncFunctionDef, ast.ClassDef)):
+            continue
+        for x in ast.walk(stmt):
+            if _mutates(x, name):
+                raise UnknownIdiom('%s: the event constant %s is modified at import time: %s' % (f.qual, q, short(x)))
+    for g in p.funcs.values():
+        if g.module is not m:
+            continue
+        for x in walk_self(g.node):
+            tgt = _mutates(x, name)
+            if tgt is not None and p.resolve_expr(m, tgt, g) == q:
+                ne.mutations.append((g, x))
+    return ne
+
+
+def _mutates(x, name) -> Optional[ast.AST]:
+    """the Name node if statement/expression x modifies the dict called `name`"""
+    if isinstance(x, (ast.Assign, ast.AugAssign, ast.Delete, ast.AnnAssign)):
+        tgs = x.targets if isinstance(x, (ast.Assign, ast.Delete)) else [x.target]
+        for t in tgs:
+            if isinstance(t, ast.Subscript) and is_name(t.value, name):
+                return t.value
+            if isinstance(x, ast.AugAssign) and is_name(t, name):
+                return t
+    if isinstance(x, ast.Call) and isinstance(x.func, ast.Attribute) and x.func.attr in _DICT_MUTATORS and is_name(x.func.value, name):
+        return x.func.value
+    return None
+
+
+def _send_events(p, f: Func, send_name: str, cfg=None, named_out: Optional[dict] = None) -> Dict[int, SendEvent]:
+    """id(call) -> SendEvent for every `send(<event>)` call of f.  The event is a dict display, a module-level
+    constant dict, or a local bound to a dict display in f (folded with its constant-key field stores)."""
+    out = {}
+    by_local: List[ast.Call] = []
+    named: Dict[str, NamedEvent] = {}
     for c in walk_self(f.node):
         if not (isinstance(c, ast.Call) and is_name(c.func, send_name)):
             continue
         if len(c.args) != 1 or c.keywords:
             raise UnknownIdiom('%s: send call %s' % (f.qual, short(c)))
-        d = dict_literal(p, f, c.args[0])
+        a0 = c.args[0]
+        m, ff = f.module, f
+        if isinstance(a0, ast.Name):
+            q = p.resolve_expr(f.module, a0, f)
+            if not q:
+                by_local.append(c)
+                continue
+            m = p.modules.get(q.rpartition('.')[0], f.module)
+            ff = None if m is not f.module else f
+        d = dict_literal(p, f, a0)
         if d is None:
-            raise UnknownIdiom('%s: event passed to send is not a dict literal / module constant: %s' % (f.qual, short(c.args[0])))
-        if 'type' not in d:
-            raise UnknownIdiom('%s: event without a constant "type" key: %s' % (f.qual, short(c.args[0])))
-        m = f.module
-        if isinstance(c.args[0], ast.Name):
-            q = p.resolve_expr(f.module, c.args[0], f)
-            m = p.modules.get(q.rpartition('.')[0], f.module) if q else f.module
-        t = p.fold(m, d['type'], None, None if m is not f.module else f)
-        if t == START_T:
-            out[id(c)] = SendEvent(c, 'START', False, None)
-        elif t == BODY_T:
-            more = False
-            if 'more_body' in d:
-                v = d['more_body']
-                if isinstance(v, ast.Constant) and isinstance(v.value, bool):
-                    more = v.value
-                else:
-                    raise UnknownIdiom('%s: more_body is not a literal: %s' % (f.qual, short(v)))
-            body = d.get('body')
-            if body is not None and _is_empty_bytes(p, f, body):
-                body = None
-            out[id(c)] = SendEvent(c, 'BODY', more, body)
-        else:
-            raise UnknownIdiom('%s: send of event type %r in the HTTP callable' % (f.qual, t))
+            raise UnknownIdiom('%s: event passed to send is not a dict literal / module constant: %s' % (f.qual, short(a0)))
+        if isinstance(a0, ast.Name):
+            if q not in named:
+                named[q] = _const_event(p, f, q, q.rpartition('.')[2], m)
+            named[q].sends.append(c)
+        out[id(c)] = _classify_event(p, f, c, d, m, ff)
+    if by_local:
+        if cfg is None:
+            cfg = cfg_of(f, p)
+        evs, loc = _local_events(p, f, cfg, {c.args[0].id for c in by_local}, send_name, by_local)
+        out.update(evs)
+        named.update(loc)
     if not out:
         raise AnchorError('%s: no send(...) calls found' % f.qual)
+    if named_out is not None:
+        named_out.update(named)
     return out
 
 
@@ -95,7 +309,8 @@ class AsgiCall:
         run.use_cfg(cfg)
         self.ix = Index(cfg)
         self.send = param_at(f, 3, 'send')
-        self.events = _send_events(p, f, self.send)
+        self.named: Dict[str, NamedEvent] = {}
+        self.events = _send_events(p, f, self.send, cfg, self.named)
         self.ev_nodes: Dict[int, List[SendEvent]] = {}
         for ev in self.events.values():
             for nid in self.ix.nodes_of(ev.call):
@@ -139,20 +354,156 @@ class AsgiCall:
         return lambda e: ok and is_name(e, self.rendered)
 
 
-def _bodiless_test(p, f: Func, cfg, const_name: str, negated=False):
-    """Test nodes whose condition contains `<x> in <const_name>` as the whole
-    test or as an operand of a top-level `or`."""
+BODILESS = frozenset({100, 101, 204, 304})
+TYPELESS = frozenset({204, 304})
+
+
+def _member_codes(p, f: Func, e):
+    """(status codes, raw folded elements, positive?) for `<x> in <S>` / `<x> not in <S>` / `<x> == <c>` /
+    `<x> != <c>` where S (c) folds to a collection of status codes (one status code); else None."""
+    if not (isinstance(e, ast.Compare) and len(e.ops) == 1):
+        return None
+    op = e.ops[0]
+    if isinstance(op, (ast.In, ast.NotIn)):
+        raw = p.fold(f.module, e.comparators[0], None, f)
+    elif isinstance(op, (ast.Eq, ast.NotEq)):
+        raw = p.fold(f.module, e.comparators[0], None, f)
+        raw = (raw,) if isinstance(raw, (int, str)) and not isinstance(raw, bool) else None
+    else:
+        return None
+    codes = _codes(raw)
+    if not codes:
+        return None
+    return frozenset(codes), tuple(raw), isinstance(op, (ast.In, ast.Eq))
+
+
+class StatusTest:
+    """A branch on the membership of the response status in a constant collection of status codes: the
+    whole test, or operands of a top-level `or` (next to other operands such as the HEAD test)."""
+
+    def __init__(self, node, codes, raw, label):
+        self.node = node          # CFG test node
+        self.id = node.id
+        self.ast = node.ast
+        self.lineno = node.lineno
+        self.codes = codes        # folded set consulted (union over the membership operands)
+        self.raw = raw
+        self.label = label        # label of the out-edge taken when the status is in the set
+        self.other = 'F' if label == 'T' else 'T'
+
+
+def _status_tests(p, f: Func, cfg) -> List[StatusTest]:
     out = []
     for n in cfg.live_nodes():
         if n.kind != 'test' or n.copy:
             continue
-        parts = n.ast.values if isinstance(n.ast, ast.BoolOp) and isinstance(n.ast.op, ast.Or) else [n.ast]
-        for e in parts:
-            if isinstance(e, ast.Compare) and len(e.ops) == 1 and isinstance(e.ops[0], ast.In):
-                q = p.resolve_expr(f.module, e.comparators[0], f)
-                if q == f.module.name + '.' + const_name:
-                    out.append(n)
+        t = n.ast
+        label = 'T'
+        if isinstance(t, ast.UnaryOp) and isinstance(t.op, ast.Not):
+            t, label = t.operand, 'F'
+        parts = t.values if label == 'T' and isinstance(t, ast.BoolOp) and isinstance(t.op, ast.Or) else [t]
+        got = [m for m in (_member_codes(p, f, e) for e in parts) if m is not None]
+        if not got:
+            continue
+        if len(parts) == 1 and not got[0][2]:
+            label = 'F' if label == 'T' else 'T'
+        elif not all(m[2] for m in got):
+            continue        # `a or x not in S`: not a membership branch
+        codes = frozenset().union(*[m[0] for m in got])
+        raw = tuple(x for m in got for x in m[1])
+        out.append(StatusTest(n, codes, raw, label))
     return out
+
+
+class StatusBranches:
+    """The two status decisions of an app's __call__, found by role and read by value:
+    `ttest` - the branch that suppresses the default media type; `btest` - the HEAD-or-bodiless branch."""
+
+    def __init__(self, p, f: Func, cfg, ix: Index, resp: str, meth: str):
+        self.f, self.cfg = f, cfg
+        hcalls = _headers_calls(f, resp, meth)
+        if not hcalls:
+            raise AnchorError('%s: %s.%s is never called' % (f.qual, resp, meth))
+        mvars = set()
+        for c in hcalls:
+            if len(c.args) != 1:
+                raise UnknownIdiom('%s: %s' % (f.qual, short(c)))
+            a0 = c.args[0]
+            if isinstance(a0, ast.Name):
+                mvars.add(a0.id)
+            elif not (isinstance(a0, ast.Constant) and isinstance(a0.value, str)):
+                raise UnknownIdiom('%s: media type argument %s' % (f.qual, short(a0)))
+        mv = self.mv = single(sorted(mvars), 'default-media-type local', f.qual)
+        self.use_nodes = {n for c in hcalls if is_name(c.args[0], mv) for n in ix.nodes_of(c)}
+        self.null_defs, self.set_defs = set(), set()
+        for n in cfg.live_nodes():
+            if n.kind == 'stmt' and isinstance(n.ast, (ast.Assign, ast.AnnAssign)):
+                tg = n.ast.targets if isinstance(n.ast, ast.Assign) else [n.ast.target]
+                if any(is_name(t, mv) for t in tg) and n.ast.value is not None:
+                    v = n.ast.value
+                    if isinstance(v, ast.Constant) and v.value is None:
+                        self.null_defs.add(n.id)
+                    else:
+                        self.set_defs.add(n.id)
+                        if not (isinstance(v, ast.Attribute) and v.attr == 'default_media_type'):
+                            raise UnknownIdiom('%s: %s = %s' % (f.qual, mv, short(v)))
+        if not self.set_defs:
+            raise AnchorError('%s: %s is never set from the default media type' % (f.qual, mv))
+        cands = _status_tests(p, f, cfg)
+        if not cands:
+            raise AnchorError('%s: no branch on the response status being in a constant set of status codes' % f.qual)
+
+        def under(nid, c: StatusTest, labels):
+            return any(ix.dominated_by_edge(nid, e) for l in labels for e in flow.edges_out(cfg, c.id, l))
+
+        # the suppressing branch: innermost status test under whose in-set edge the media type is nulled
+        tt = None
+        if self.null_defs:
+            per_def = []
+            for nd in sorted(self.null_defs):
+                dom = [c for c in cands if under(nd, c, (c.label,))]
+                inner = [c for c in dom if all(o is c or under(c.id, o, (o.label,)) for o in dom)]
+                per_def.append(inner[0] if len(inner) == 1 else None)
+            found = {id(c): c for c in per_def if c is not None}
+            if len(found) == 1 and all(c is not None for c in per_def):
+                tt = list(found.values())[0]
+            elif len(found) > 1:
+                raise UnknownIdiom('%s: `%s = None` sits under several different status tests' % (f.qual, mv))
+        if tt is None:
+            # (no `mv = None` at all, or one outside every status test): the test consulting exactly 204/304
+            exact = [c for c in cands if c.codes == TYPELESS]
+            if len(exact) != 1:
+                raise AnchorError('%s: the branch that suppresses the default media type (`%s = None` under a test of the status against '
+                                  'a constant set) was not found' % (f.qual, mv))
+            tt = exact[0]
+        self.ttest = tt
+        outer = [c for c in cands if not any(o is not c and under(c.id, o, ('T', 'F')) for o in cands)]
+        rest = [c for c in outer if c is not tt]
+        if len(rest) == 1:
+            self.btest = rest[0]
+        elif not rest and tt in outer:
+            self.btest = tt
+        else:
+            raise AnchorError('%s: expected exactly one HEAD-or-bodiless test, found %d' % (f.qual, len(rest)))
+
+    def edges(self, t: StatusTest, in_set: bool):
+        return flow.edges_out(self.cfg, t.id, t.label if in_set else t.other)
+
+
+def _status_atom(p, f: Func, req: str, code: int, head: bool):
+    """Truth of the atoms of a test for a concrete (status code, HEAD?) cell."""
+    def atom(e):
+        m = _member_codes(p, f, e)
+        if m is not None:
+            return (code in m[0]) == m[2]
+        if isinstance(e, ast.Compare) and len(e.ops) == 1 and attr_of(e.left, req, ('method',)) \
+                and isinstance(e.comparators[0], ast.Constant) and e.comparators[0].value == 'HEAD':
+            if isinstance(e.ops[0], ast.Eq):
+                return head
+            if isinstance(e.ops[0], ast.NotEq):
+                return not head
+        return None
+    return atom
 
 
 def _codes(val) -> Optional[Set[int]]:
@@ -223,9 +574,43 @@ def r1_asgi_protocol(run):
         run.fail('ASGI HTTP event protocol violated: %s' % reason, f, cons, where=where, witness=flow.describe_path(cfg, path),
                  runtime_witness='the server receives a second start / a body event before start / an event after the final one / '
                                  'no final event')
+    _fresh_events(run, a)
     # each individual send site is classified and reachable only after request construction or in INIT
     for ev in sorted(a.events.values(), key=lambda e: e.call.lineno):
         run.ok('ASGI: send site classified (%s)' % ev.label, f.loc(ev.call), ev.call.args[0])
+
+
+def _fresh_events(run, a: AsgiCall):
+    """An event object handed to `send` belongs to the server from then on (it may queue the event and
+    serialise it later): the application neither modifies it afterwards nor, therefore, hands a modified
+    version of the same object to `send` again.  Inline displays are fresh per evaluation; a module constant
+    must never be modified; a local must not be modified on any path after a send without being rebuilt."""
+    cfg, f, ix = a.cfg, a.f, a.ix
+    what = 'ASGI: an event object handed to send is not modified afterwards (the server may queue the event and read it later)'
+    rw = ('a stream of >= 2 different chunks and a server that queues events instead of consuming them inside send(): every queued body '
+          'event shows the last chunk (bytes written != bytes streamed, Content-Length mismatch)')
+    for key in sorted(a.named):
+        ne = a.named[key]
+        if ne.kind == 'const':
+            if ne.mutations:
+                for (g, x) in ne.mutations:
+                    run.fail(what + ' [module constant %s is shared by all requests]' % ne.name, g, x, where=g.loc(x), runtime_witness=rw)
+            else:
+                run.ok(what, f.loc(ne.sends[0]), 'constant event %s is never modified' % ne.name.rpartition('.')[2])
+            continue
+        send_nodes = sorted({n for c in ne.sends for n in ix.nodes_of(c)})
+        starts = sorted({y for s0 in send_nodes for (y, l) in cfg.succ[s0] if l != 'exc'})
+        bad = {}
+        for st in sorted(ne.store_nodes):
+            path = flow.find_path(cfg, starts, [st], avoid_nodes=ne.bind_nodes)
+            if path is not None:
+                bad[st] = path
+        if not bad:
+            run.ok(what, f.loc(ne.sends[0]), 'event local %s is rebuilt before it is modified again' % ne.name)
+        for st, path in sorted(bad.items()):
+            n = cfg.node(st)
+            run.fail(what + ' [a previously sent event object is modified]', f, n.ast, where='%s:%s' % (f.file, n.lineno),
+                     witness=flow.describe_path(cfg, path), runtime_witness=rw)
 
 
 # ---------------------------------------------------------------------------
@@ -441,39 +826,10 @@ def _headers_calls(f: Func, resp: str, meth: str):
             and is_name(c.func.value, resp)]
 
 
-def _typeless_rules(run, f: Func, cfg, ix: Index, resp: str, meth: str, btest, tag: str):
-    p = run.project
-    tt = _bodiless_test(p, f, cfg, '_TYPELESS_STATUS_CODES')
-    ttest = single(tt, 'typeless-status test', f.qual)
-    hcalls = _headers_calls(f, resp, meth)
-    if not hcalls:
-        raise AnchorError('%s: %s.%s is never called' % (f.qual, resp, meth))
-    mvars = set()
-    for c in hcalls:
-        if len(c.args) != 1:
-            raise UnknownIdiom('%s: %s' % (f.qual, short(c)))
-        a0 = c.args[0]
-        if isinstance(a0, ast.Name):
-            mvars.add(a0.id)
-        elif not (isinstance(a0, ast.Constant) and isinstance(a0.value, str)):
-            raise UnknownIdiom('%s: media type argument %s' % (f.qual, short(a0)))
-    mv = single(sorted(mvars), 'default-media-type local', f.qual)
-    use_nodes = {n for c in hcalls if is_name(c.args[0], mv) for n in ix.nodes_of(c)}
-    null_defs, set_defs = set(), set()
-    for n in cfg.live_nodes():
-        if n.kind == 'stmt' and isinstance(n.ast, (ast.Assign, ast.AnnAssign)):
-            tg = n.ast.targets if isinstance(n.ast, ast.Assign) else [n.ast.target]
-            if any(is_name(t, mv) for t in tg) and n.ast.value is not None:
-                v = n.ast.value
-                if isinstance(v, ast.Constant) and v.value is None:
-                    null_defs.add(n.id)
-                else:
-                    set_defs.add(n.id)
-                    if not (isinstance(v, ast.Attribute) and v.attr == 'default_media_type'):
-                        raise UnknownIdiom('%s: %s = %s' % (f.qual, mv, short(v)))
-    if not set_defs:
-        raise AnchorError('%s: %s is never set from the default media type' % (f.qual, mv))
-    t_edges = flow.edges_out(cfg, ttest.id, 'T')
+def _typeless_rules(run, f: Func, cfg, ix: Index, sb: StatusBranches, tag: str):
+    btest, ttest = sb.btest, sb.ttest
+    mv, use_nodes, null_defs, set_defs = sb.mv, sb.use_nodes, sb.null_defs, sb.set_defs
+    t_edges = sb.edges(ttest, True)
     # (i) nulled on the typeless branch before the header list is built
     def labels(n):
         out = []
@@ -511,8 +867,12 @@ def _typeless_rules(run, f: Func, cfg, ix: Index, resp: str, meth: str, btest, t
     if not null_defs:
         run.fail('%s: for a 204/304 status the default media type is dropped' % tag, f, 'no `%s = None`' % mv, where=f.loc(ttest.ast))
     # (iii) the typeless test is evaluated on every bodiless path before headers are built
-    for (_b, y, _l) in flow.edges_out(cfg, btest.id, 'T'):
-        path = flow.find_path(cfg, [y], sorted(use_nodes), avoid_nodes=[ttest.id], edge_filter=flow.no_exc)
+    # (a typeless test hoisted in front of the bodiless one has been passed already)
+    hoisted = btest.id not in flow.reachable(cfg, sorted(set_defs), avoid_nodes=[ttest.id], edge_filter=flow.no_exc)
+    for (_b, y, _l) in sb.edges(btest, True):
+        path = None
+        if btest is not ttest and not hoisted:
+            path = flow.find_path(cfg, [y], sorted(use_nodes), avoid_nodes=[ttest.id], edge_filter=flow.no_exc)
         run.check(path is None, '%s: every HEAD-or-bodiless response passes the typeless-status test before its headers are built' % tag, f,
                   'bodiless -> typeless: ' + short(btest.ast, 80), where=f.loc(btest.ast), witness=flow.describe_path(cfg, path) if path else None)
 
@@ -555,30 +915,15 @@ def _content_type_default(run, q: str, tag: str):
 
 def r4_bodiless_typeless(run):
     p = run.project
-    # (a) constant sets
-    sets = {}
-    for modname, tag in (('falcon.app', 'WSGI'), ('falcon.asgi.app', 'ASGI')):
-        m = p.module(modname)
-        for name, want in (('_BODILESS_STATUS_CODES', {100, 101, 204, 304}), ('_TYPELESS_STATUS_CODES', {204, 304})):
-            if name not in m.consts:
-                raise AnchorError('%s.%s not found' % (modname, name))
-            codes = _codes(p.fold(m, m.consts[name]))
-            if codes is None:
-                raise UnknownIdiom('%s.%s does not fold to a set of status codes' % (modname, name))
-            sets[(modname, name)] = codes
-            run.check(codes == want, '%s: %s is exactly %s' % (tag, name, sorted(want)), modname + '.' + name,
-                      '%s = %s' % (name, sorted(codes)), where='%s:%d' % (m.relpath, m.const_nodes[name].lineno),
-                      runtime_witness='a %s response is sent with%s' % (sorted(want ^ codes), ' a body / Content-Type' if want - codes else 'out its body'))
-        run.check(sets[(modname, '_TYPELESS_STATUS_CODES')] <= sets[(modname, '_BODILESS_STATUS_CODES')],
-                  '%s: typeless statuses are a subset of the bodiless ones (the typeless test sits inside the bodiless branch)' % tag,
-                  modname + '._TYPELESS_STATUS_CODES', 'typeless <= bodiless', where=m.relpath)
     # (b) WSGI branch
     af = AppFlow(p, WSGI_CALL)
     cfg, f = af.cfg, af.func
     run.use_cfg(cfg)
     ix = Index(cfg)
-    btest = single(_bodiless_test(p, f, cfg, '_BODILESS_STATUS_CODES'), 'HEAD-or-bodiless test', f.qual)
     req, resp = _wsgi_locals(f)
+    wsb = sb = StatusBranches(p, f, cfg, ix, resp, '_wsgi_headers')
+    btest = sb.btest
+    _status_sets(run, f, cfg, ix, sb, 'WSGI')
     _head_operand(run, f, btest, req, 'WSGI')
     sr = param_at(f, 2, 'start_response')
     starts = [n for c in walk_self(f.node) if isinstance(c, ast.Call) and is_name(c.func, sr) for n in ix.nodes_of(c)]
@@ -599,7 +944,7 @@ def r4_bodiless_typeless(run):
                 return ['FULL']
         return []
 
-    for (_b, y, _l) in flow.edges_out(cfg, btest.id, 'T'):
+    for (_b, y, _l) in sb.edges(btest, True):
         cex, _x, _y = flow.typestate(cfg, blabels, lambda st, lab: 'empty' if lab == 'EMPTY' else 'full', 'full', start=y,
                                      exit_ok=lambda st: st == 'empty')
         if cex is None:
@@ -609,10 +954,12 @@ def r4_bodiless_typeless(run):
             run.fail('WSGI: a HEAD response or a 100/101/204/304 response returns an empty body iterable', f,
                      'bodiless branch: ' + short(btest.ast, 100), where=f.loc(btest.ast), witness=flow.describe_path(cfg, path),
                      runtime_witness='HEAD request to a responder that sets resp.text: body bytes are sent')
-    _typeless_rules(run, f, cfg, ix, resp, '_wsgi_headers', btest, 'WSGI')
+    _typeless_rules(run, f, cfg, ix, sb, 'WSGI')
     # (c) ASGI branch
     a = AsgiCall(run)
-    btest = single(_bodiless_test(p, a.f, a.cfg, '_BODILESS_STATUS_CODES'), 'HEAD-or-bodiless test', a.f.qual)
+    asb = sb = StatusBranches(p, a.f, a.cfg, a.ix, a.resp, '_asgi_headers')
+    btest = sb.btest
+    _status_sets(run, a.f, a.cfg, a.ix, sb, 'ASGI')
     _head_operand(run, a.f, btest, a.req, 'ASGI')
     for nid in sorted(a.ev_nodes):
         run.check(flow.dominated_by_nodes(a.cfg, nid, [btest.id]), 'ASGI: the HEAD-or-bodiless decision precedes every send', a.f,
@@ -632,7 +979,7 @@ def r4_bodiless_typeless(run):
             return ERROR
         return st
 
-    for (_b, y, _l) in flow.edges_out(a.cfg, btest.id, 'T'):
+    for (_b, y, _l) in sb.edges(btest, True):
         cex, _x, _y = flow.typestate(a.cfg, alabels, adelta, 'INIT', start=y, exit_ok=lambda st: st == 'DONE')
         if cex is None:
             run.ok('ASGI: a HEAD response or a 100/101/204/304 response sends only the start event and an empty final event',
@@ -644,10 +991,70 @@ def r4_bodiless_typeless(run):
                      a.f, bad.ast if bad.ast is not None and bad.kind != 'exit' else 'bodiless branch: ' + short(btest.ast, 100),
                      where='%s:%s' % (a.f.file, bad.lineno or btest.lineno), witness=flow.describe_path(a.cfg, path),
                      runtime_witness='HEAD request to a responder that sets resp.text: body bytes are sent')
-    _typeless_rules(run, a.f, a.cfg, a.ix, a.resp, '_asgi_headers', btest, 'ASGI')
+    _typeless_rules(run, a.f, a.cfg, a.ix, sb, 'ASGI')
+    # (c') both stacks decide on the same sets
+    for what, w, x, want in (('typeless', wsb.ttest, asb.ttest, TYPELESS), ('bodiless', wsb.btest, asb.btest, BODILESS)):
+        run.check(w.codes == x.codes,
+                  'WSGI and ASGI agree on the %s statuses' % what, f if w.codes != want else a.f,
+                  '%s statuses: WSGI %s, ASGI %s' % (what, sorted(w.codes), sorted(x.codes)), where=f.loc(w.ast),
+                  runtime_witness='a %s response differs between the two stacks' % sorted(w.codes ^ x.codes))
     # (d) default content type
     _content_type_default(run, 'falcon.response.Response._wsgi_headers', 'Response._wsgi_headers')
     _content_type_default(run, 'falcon.asgi.response.Response._asgi_headers', 'asgi.Response._asgi_headers')
+
+
+def _status_kind(f: Func, cfg, ix: Index, t: StatusTest) -> Optional[type]:
+    """str / int when every definition of the status local tested by `t` is recognisably a status line
+    (code_to_http_status(...)) / a status code (<resp>.status_code); None when it cannot be told."""
+    subj = None
+    for x in ast.walk(t.ast):
+        if isinstance(x, ast.Compare) and isinstance(x.left, ast.Name):
+            subj = x.left.id
+    if subj is None:
+        return None
+    kinds = set()
+    for d in ix.defs_reaching(t.id, subj):
+        dv = def_value(cfg, d, subj)
+        e = strip_await(dv[1]) if dv[0] == 'expr' and dv[1] is not None else None
+        if isinstance(e, ast.Call) and (is_name(e.func, 'code_to_http_status') or
+                                        (isinstance(e.func, ast.Attribute) and e.func.attr == 'code_to_http_status')):
+            kinds.add(str)
+        elif isinstance(e, ast.Attribute) and e.attr == 'status_code':
+            kinds.add(int)
+        else:
+            kinds.add(None)
+    return kinds.pop() if len(kinds) == 1 else None
+
+
+def _status_sets(run, f: Func, cfg, ix: Index, sb: StatusBranches, tag: str):
+    """The sets the two status branches consult, by value (whatever the constants are called)."""
+    t, b = sb.ttest, sb.btest
+    run.check(t.codes == TYPELESS,
+              '%s: the statuses answered without the default Content-Type (the set consulted by the branch that drops the default '
+              'media type) are exactly %s; every other response has a Content-Type' % (tag, sorted(TYPELESS)), f,
+              'typeless statuses %s in: %s' % (sorted(t.codes), short(t.ast, 100)), where=f.loc(t.ast),
+              runtime_witness='a %s response is sent with%s the default Content-Type'
+                              % (sorted(TYPELESS ^ t.codes), '' if TYPELESS - t.codes else 'out'))
+    if b is not t:
+        run.check(b.codes == BODILESS,
+                  '%s: the statuses answered without a body (the set consulted by the HEAD-or-bodiless branch) are exactly %s'
+                  % (tag, sorted(BODILESS)), f, 'bodiless statuses %s in: %s' % (sorted(b.codes), short(b.ast, 100)), where=f.loc(b.ast),
+                  runtime_witness='a %s response is sent with%s' % (sorted(BODILESS ^ b.codes), ' a body' if BODILESS - b.codes else 'out its body'))
+        run.check(t.codes <= b.codes, '%s: typeless statuses are a subset of the bodiless ones (the typeless test sits inside the bodiless '
+                  'branch)' % tag, f, 'typeless %s <= bodiless %s' % (sorted(t.codes), sorted(b.codes)), where=f.loc(t.ast))
+    else:
+        run.fail('%s: the HEAD-or-bodiless branch and the branch that drops the default media type are distinct decisions '
+                 '(bodiless %s, typeless %s)' % (tag, sorted(BODILESS), sorted(TYPELESS)), f,
+                 'one status test for both: %s' % short(t.ast, 100), where=f.loc(t.ast),
+                 runtime_witness='a HEAD response to a 200 resource, or a 101 response, is sent without the default Content-Type')
+    for st, what in ((t, 'typeless'), (b, 'bodiless')):
+        if st is b and b is t:
+            continue
+        kind = _status_kind(f, cfg, ix, st)
+        have = {type(x) for x in st.raw}
+        run.check(kind is None or have == {kind}, '%s: the %s set holds values of the type of the status it is compared with' % (tag, what), f,
+                  '%s elements %s vs %s status' % (what, sorted(k.__name__ for k in have), kind.__name__ if kind else '?'), where=f.loc(st.ast),
+                  runtime_witness='the membership test never matches: a 204 response gets a body / Content-Type')
 
 
 def _wsgi_locals(f: Func):
@@ -672,7 +1079,7 @@ def _head_operand(run, f: Func, btest, req: str, tag: str):
             if isinstance(e.ops[0], ast.NotEq):
                 return False
         return None
-    run.check(eval3(btest.ast, head) is True, '%s: a HEAD request takes the bodiless branch whatever the status' % tag, f, btest.ast,
+    run.check(eval3(btest.ast, head) is (btest.label == 'T'), '%s: a HEAD request takes the bodiless branch whatever the status' % tag, f, btest.ast,
               runtime_witness='HEAD request: the response body is sent')
 
 
@@ -699,6 +1106,31 @@ def _len_of(e) -> Optional[str]:
         if isinstance(i, ast.Call) and is_name(i.func, 'len') and len(i.args) == 1 and isinstance(i.args[0], ast.Name):
             return i.args[0].id
     return None
+
+
+def _bodiless_no_length(run, f: Func, cfg, sb: StatusBranches, req: str, stores, tag: str):
+    """On the HEAD-or-bodiless branch the framework computes a Content-Length only to describe what a GET
+    would have returned (HEAD).  For a bodiless status answered to another method no bytes are sent, so a
+    computed length other than '0' contradicts "Content-Length equals the bytes sent".  Decided per status
+    of the set the branch consults, by evaluating the tests of the branch for (status, non-HEAD)."""
+    p = run.project
+    b = sb.btest
+    nonzero = sorted(s for s, v in stores.items() if not (isinstance(v, ast.Constant) and v.value in ('0', 0)))
+    bad = {}
+    for code in sorted(b.codes):
+        filt = pruned(cfg, _status_atom(p, f, req, code, False), flow.no_exc)
+        for (_b, y, _l) in sb.edges(b, True):
+            path = flow.find_path(cfg, [y], nonzero, edge_filter=filt)
+            if path is not None:
+                bad.setdefault(path[-1], (code, path))
+    what = ('%s: a bodiless status (%s) answered to a non-HEAD request gets no computed Content-Length (no body bytes are sent)'
+            % (tag, ', '.join(str(c) for c in sorted(b.codes))))
+    if not bad:
+        run.ok(what, f.loc(b.ast), 'no content-length store on the non-HEAD bodiless paths')
+    for nid, (code, path) in sorted(bad.items()):
+        n = cfg.node(nid)
+        run.fail(what, f, n.ast, where='%s:%s' % (f.file, n.lineno), witness=flow.describe_path(cfg, path),
+                 runtime_witness='GET answered with status %d and resp.text set: Content-Length: len(text) but no body bytes' % code)
 
 
 def r5_content_length(run):
@@ -743,7 +1175,8 @@ def r5_content_length(run):
     run.use_cfg(cfg)
     ix = Index(cfg)
     req, resp = _wsgi_locals(f)
-    btest = single(_bodiless_test(p, f, cfg, '_BODILESS_STATUS_CODES'), 'HEAD-or-bodiless test', f.qual)
+    wsb = StatusBranches(p, f, cfg, ix, resp, '_wsgi_headers')
+    btest = wsb.btest
     unpack = None
     for n in walk_self(f.node):
         if isinstance(n, ast.Assign) and isinstance(n.value, ast.Call) and dotted(n.value.func) == 'self._get_body' and len(n.targets) == 1 \
@@ -768,7 +1201,8 @@ def r5_content_length(run):
     sr = param_at(f, 2, 'start_response')
     starts = [n for c in walk_self(f.node) if isinstance(c, ast.Call) and is_name(c.func, sr) for n in ix.nodes_of(c)]
     is_len = lambda e: is_name(e, lv)  # noqa: E731
-    for (_b, y, _l) in flow.edges_out(cfg, btest.id, 'F'):
+    _bodiless_no_length(run, f, cfg, wsb, req, stores, 'WSGI')
+    for (_b, y, _l) in wsb.edges(btest, False):
         path = flow.find_path(cfg, [y], starts, avoid_nodes=good, edge_filter=pruned(cfg, assume_none(is_len, False), flow.no_exc))
         run.check(path is None and bool(good),
                   'WSGI: for a non-HEAD, body-bearing response with a known length, content-length is overwritten with that length '
@@ -778,10 +1212,12 @@ def r5_content_length(run):
     # ---- ASGI
     a = AsgiCall(run)
     cfg, f, ix = a.cfg, a.f, a.ix
-    btest = single(_bodiless_test(p, f, cfg, '_BODILESS_STATUS_CODES'), 'HEAD-or-bodiless test', f.qual)
+    asb = StatusBranches(p, f, cfg, ix, a.resp, '_asgi_headers')
+    btest = asb.btest
     stores = _cl_stores(cfg, a.resp)
     if not stores:
         raise AnchorError("%s: no store to %s._headers['content-length']" % (f.qual, a.resp))
+    _bodiless_no_length(run, f, cfg, asb, a.req, stores, 'ASGI')
     sse_al = aliases(f, lambda e: attr_of(e, a.resp, ('_sse', 'sse')))
     is_sse = lambda e: attr_of(e, a.resp, ('_sse', 'sse')) or (isinstance(e, ast.Name) and e.id in sse_al)  # noqa: E731
     if not any(attr_of(x, a.resp, ('stream',)) for x in walk_self(f.node)):
@@ -794,14 +1230,14 @@ def r5_content_length(run):
     no_stream = lambda e: False if is_stream(e) else None  # noqa: E731
     # the server-sent-events branch is a streamed response: its start event carries a constant media type
     def is_sse_start(ev):
-        d = dict_literal(p, f, ev.call.args[0]) or {}
+        d = ev.fields
         h = strip_await(d.get('headers')) if d.get('headers') is not None else None
         return (ev.kind == 'START' and isinstance(h, ast.Call) and isinstance(h.func, ast.Attribute) and h.func.attr == '_asgi_headers'
                 and len(h.args) == 1 and isinstance(h.args[0], ast.Constant) and isinstance(h.args[0].value, str))
 
     sse_starts = [nid for nid, evs in a.ev_nodes.items() if any(is_sse_start(ev) for ev in evs)]
     start_nodes = [nid for nid, evs in a.ev_nodes.items() if any(ev.kind == 'START' for ev in evs) and nid not in sse_starts]
-    f_targets = [y for (_b, y, _l) in flow.edges_out(cfg, btest.id, 'F')]
+    f_targets = [y for (_b, y, _l) in asb.edges(btest, False)]
     if not f_targets:
         raise AnchorError('%s: the HEAD-or-bodiless test has no false branch' % f.qual)
     # (A1) rendered body present
